@@ -4,7 +4,7 @@ import copy
 import numpy as np
 import pandas as pd
 
-from .. import attach, gen, poollog, purity
+from .. import attach, gen, pipeline, poollog, purity
 from ..runner import quiet, guarded
 
 PROP = 'C15'
@@ -41,6 +41,11 @@ def env_of(case):
     if case.get('readonly'):
         e['sig'].flags.writeable = False
         e['sigs2'].flags.writeable = False
+    elif case.get('subclass'):
+        # the recording is an instance of an ndarray subclass (np.memmap, arrays that carry metadata): np.asarray of it is a
+        # view of the caller's memory, not a copy
+        e['sig'] = e['sig'].view(pipeline.Recording)
+        attach.count('C15:signal_is_an_ndarray_subclass')
     return e
 
 
@@ -296,7 +301,7 @@ def make_case(rng):
     rows = np.array([np.roll(sig, 7 * i) + 1e-3 * i for i in range(4)])
     return {'sig': sig, 'fs': fs, 'f_range': (lo, hi), 'thr': thr, 'bk': bk, 'fek': fek, 'center': str(rng.choice(['peak', 'trough'])),
             'method': method, 'sigs2': rows[:int(rng.integers(2, 4))], 'sigs3': rows.reshape(2, 2, -1),
-            'ops': gen_ops(rng, method, int(rng.integers(2, 7)), nsamp, fs), 'readonly': bool(rng.random() < 0.3), 'family': fam}
+            'ops': gen_ops(rng, method, int(rng.integers(2, 7)), nsamp, fs), 'readonly': bool(rng.random() < 0.3), 'subclass': bool(rng.random() < 0.3), 'family': fam}
 
 
 def run(sh):
